@@ -27,10 +27,14 @@ type vh_memFS struct {
 	entries    []*vh_memEntry
 	walkErrAt  int // index at which Walk reports an error (-1: never)
 	wholeReads bool
+	readGate   chan struct{} // non-nil: file reads block until it is closed (closed when Walk returns)
 	readStep   int // > 0: every read hands out exactly this many bytes (no solver choice)
 }
 
 func (f *vh_memFS) Walk(ctx context.Context, target string, fn gofs.WalkDirFunc) error {
+	if f.readGate != nil {
+		defer close(f.readGate)
+	}
 	for i, e := range f.entries {
 		if i == f.walkErrAt {
 			return fn(e.stat.Path, nil, vh_errInjected)
@@ -54,7 +58,7 @@ func (f *vh_memFS) Open(p string) (io.ReadCloser, error) {
 			if e.openErr {
 				return nil, vh_errInjected
 			}
-			return &vh_fragFile{data: e.data, failAfter: e.readErrAfter, whole: f.wholeReads, step: f.readStep}, nil
+			return &vh_fragFile{data: e.data, failAfter: e.readErrAfter, whole: f.wholeReads, step: f.readStep, gate: f.readGate}, nil
 		}
 	}
 	return nil, os.ErrNotExist
@@ -66,9 +70,13 @@ type vh_fragFile struct {
 	failAfter int  // >0: return an error once failAfter-1 bytes were handed out
 	whole     bool // hand out everything in one read
 	step      int  // > 0: fixed fragment size
+	gate      chan struct{}
 }
 
 func (r *vh_fragFile) Read(p []byte) (int, error) {
+	if r.gate != nil {
+		<-r.gate
+	}
 	if r.failAfter > 0 && r.pos >= r.failAfter-1 {
 		return 0, vh_errInjected
 	}
@@ -155,7 +163,12 @@ type vh_memStream struct {
 }
 
 func vh_newStreamPair(ctx context.Context, capacity int) (*vh_memStream, *vh_memStream) {
-	a2b, b2a := make(chan *types.Packet, capacity), make(chan *types.Packet, capacity)
+	return vh_newStreamPair2(ctx, capacity, capacity)
+}
+
+// vh_newStreamPair2: separate capacities for the two directions (first end to second, second to first).
+func vh_newStreamPair2(ctx context.Context, capAB, capBA int) (*vh_memStream, *vh_memStream) {
+	a2b, b2a := make(chan *types.Packet, capAB), make(chan *types.Packet, capBA)
 	brk := make(chan struct{})
 	return &vh_memStream{ctx: ctx, in: b2a, out: a2b, brk: brk}, &vh_memStream{ctx: ctx, in: a2b, out: b2a, brk: brk}
 }
